@@ -17,6 +17,9 @@ def geometry(h):
     return s, a * s, b * s
 
 
+_MADE = [0]
+
+
 def make_catchment(gridmod, fr, fc, cells, s, fxll, fyll):
     flow = gridmod.Grid("fd", fc, fr, cellsize=s, xllcorner=fxll, yllcorner=fyll, dtype=np.int64)
     cat = gridmod.Catchment("cat", flow)
@@ -24,6 +27,10 @@ def make_catchment(gridmod, fr, fc, cells, s, fxll, fyll):
     cat._idxcells_area = arr.copy()
     cat._idxcells_area_filled = arr.copy()
     cat._idxcell_outlet = arr[0] if len(arr) else np.int64(0)
+    _MADE[0] += 1
+    if _MADE[0] % 2:
+        # every second catchment goes through the public dictionary constructor (a stored / reloaded catchment)
+        cat = gridmod.Catchment.from_dict(cat.to_dict())
     return cat
 
 
